@@ -15,7 +15,7 @@ from __future__ import annotations
 
 import z3
 
-from pyvc.interp import Opaque, SymRaise, Unsupported
+from pyvc.interp import ExcInst, Opaque, SymRaise, Unsupported
 
 
 def _is_int(v):
@@ -137,11 +137,19 @@ class XArr:
         an integer must be in range — recorded as a side condition the contract obliges).  The result is a view."""
         if not isinstance(idx, tuple):
             idx = (idx,)
-        if len(idx) > self.ndim:
-            raise Unsupported("too many indices (NumPy raises IndexError; not modelled)")
-        idx = tuple(idx) + (slice(None, None, None),) * (self.ndim - len(idx))
+        nreal = sum(1 for ix in idx if ix is not None)
+        if nreal > self.ndim:
+            raise SymRaise(ExcInst(IndexError, ("too many indices for array",)))
+        idx = tuple(idx) + (slice(None, None, None),) * (self.ndim - nreal)
         plan, shape = [], []
-        for k, (ix, n) in enumerate(zip(idx, self.shape)):
+        dims = iter(self.shape)
+        for k, ix in enumerate(idx):
+            if ix is None:
+                # np.newaxis: a new axis of length 1 that consumes no axis of the source
+                plan.append(("new", None))
+                shape.append(z3.IntVal(1))
+                continue
+            n = next(dims)
             if isinstance(ix, slice):
                 if ix.step not in (None, 1):
                     raise Unsupported("slice step")
@@ -152,6 +160,10 @@ class XArr:
                     if not (z3.is_expr(v) and z3.is_int(v)):
                         raise Unsupported(f"slice bound {v!r}")
                     return z3.If(v < 0, z3.If(v + n < 0, 0, v + n), z3.If(v > n, n, v))
+                if ix.start is None and ix.stop is None:
+                    plan.append(("slice", z3.IntVal(0)))
+                    shape.append(n)
+                    continue
                 lo, hi = norm(ix.start, z3.IntVal(0)), norm(ix.stop, n)
                 ln = z3.simplify(z3.If(hi - lo < 0, 0, hi - lo))
                 plan.append(("slice", z3.simplify(lo)))
@@ -170,10 +182,50 @@ class XArr:
 
         def elem(j, plan=tuple(plan), src=src):
             it = iter(j)
-            i = [(lo + next(it)) if kind == "slice" else lo for kind, lo in plan]
+            i = []
+            for kind, lo in plan:
+                if kind == "slice":
+                    i.append(lo + next(it))
+                elif kind == "new":
+                    next(it)
+                else:
+                    i.append(lo)
             return src.at(i)
 
         return XArr(self.dom, shape, elem=elem, base=self)
+
+    def scaled(self, f):
+        """elementwise image under a scalar function f: Real -> Real (a new array)"""
+        src = self
+        if self.flat is not None:
+            return XArr(self.dom, self.shape, flat=lambda k: f(src.flat(k)))
+        return XArr(self.dom, self.shape, elem=lambda i: f(src.at(i)))
+
+    def __sym_binop__(self, interp, op, a, b, inplace):
+        import ast as _ast
+
+        if inplace:
+            raise Unsupported("in-place arithmetic on an array of the index-function domain (no write primitive)")
+        other = b if a is self else a
+        if isinstance(other, XArr):
+            raise Unsupported("array-array arithmetic in the index-function domain")
+        if _is_int(other):
+            o = z3.RealVal(other)
+        elif z3.is_expr(other) and z3.is_int(other):
+            o = z3.ToReal(other)
+        elif z3.is_expr(other) and z3.is_real(other):
+            o = other
+        elif isinstance(other, float):
+            o = z3.RealVal(other)
+        else:
+            raise Unsupported(f"arithmetic with {type(other).__name__}")
+        T = type(op)
+        left = a is self
+        fn = {_ast.Add: lambda x: x + o, _ast.Mult: lambda x: x * o, _ast.Sub: (lambda x: x - o) if left else (lambda x: o - x),
+              _ast.Div: (lambda x: x / o) if left else (lambda x: o / x)}.get(T)
+        if fn is None:
+            raise Unsupported(f"array operator {T.__name__}")
+        return self.scaled(fn)
 
     # -- interpreter hooks ---------------------------------------------------------------------
     def __sym_getitem__(self, interp, idx):
@@ -222,6 +274,9 @@ class XArr:
             return reshape
         if name == "copy":
             return lambda *a, **k: XArr(self.dom, self.shape, elem=self.elem, flat=self.flat)
+        if name == "astype":
+            # values are mathematical reals: a conversion between float types is the identity on values
+            return lambda *a, **k: self if k.get("copy", True) is False else XArr(self.dom, self.shape, elem=self.elem, flat=self.flat)
         if name in ("sum", "mean", "max", "min", "prod"):
             # a reduction allocates a NEW array; its contents and shape are not modelled (unknown function, unknown rank-1 extent)
             def reduction(*a, **k):
@@ -290,6 +345,8 @@ class _Np:
         self._dom = dom
 
     def __sym_getattr__(self, interp, name):
+        if name == "newaxis":
+            return None
         f = getattr(self, "np_" + name, None)
         if f is None:
             raise Unsupported(f"np.{name} has no axiom in the index-function domain")
@@ -449,6 +506,53 @@ class _Np:
         shape = list(pieces[0].shape)
         shape.insert(ax, z3.IntVal(len(pieces)))
         return XArr(self._dom, shape, elem=elem)
+
+    def np_broadcast_to(self, a, shape, subok=False):
+        # NumPy broadcasting: align trailing axes; a source extent that is the literal 1 is stretched (index 0), any other extent must equal the target's
+        a = _arr(a)
+        shape = [z3.IntVal(n) if _is_int(n) else n for n in shape]
+        lead = len(shape) - a.ndim
+        if lead < 0:
+            raise SymRaise(ExcInst(ValueError, ("input operand has more dimensions than allowed by the axis remapping",)))
+        stretch = []
+        for k, n in enumerate(a.shape):
+            one = (_is_int(n) and n == 1) or (z3.is_expr(n) and z3.is_int_value(n) and n.as_long() == 1)
+            if one:
+                stretch.append(True)
+            else:
+                same = z3.simplify(n == shape[lead + k])
+                if not z3.is_true(same):
+                    raise Unsupported("broadcast_to: a source extent that is neither the literal 1 nor the target's own extent (needs a case split)")
+                stretch.append(False)
+        src = a
+
+        def elem(j, lead=lead, stretch=tuple(stretch), src=src):
+            return src.at([z3.IntVal(0) if st else j[lead + k] for k, st in enumerate(stretch)])
+
+        out = XArr(self._dom, shape, elem=elem, base=a)
+        return out
+
+    def np_full(self, shape, fill_value, dtype=None, order="C"):
+        if isinstance(fill_value, XArr) and fill_value.ndim != 0:
+            # NumPy broadcasts the fill array to the requested shape
+            b = self.np_broadcast_to(fill_value, [shape] if _is_int(shape) or z3.is_expr(shape) else list(shape))
+            return XArr(self._dom, b.shape, elem=b.elem)
+        if isinstance(fill_value, XArr):
+            v = fill_value.at(())
+        elif z3.is_expr(fill_value) or isinstance(fill_value, (int, float)):
+            v = fill_value if z3.is_expr(fill_value) else z3.RealVal(fill_value)
+        else:
+            raise Unsupported(f"np.full fill value {type(fill_value).__name__}")
+        shape = [shape] if _is_int(shape) or z3.is_expr(shape) else list(shape)
+        return XArr(self._dom, shape, elem=lambda i, v=v: v)
+
+    def np_prod(self, seq, **kw):
+        if kw or not isinstance(seq, (tuple, list)):
+            raise Unsupported("np.prod of anything but a sequence of integers")
+        acc = z3.IntVal(1)
+        for v in seq:
+            acc = acc * v
+        return acc
 
     def np_cumsum(self, seq, **kw):
         if kw or not isinstance(seq, (tuple, list)):
